@@ -18,7 +18,7 @@ struct Shape_Script : public Script {
 
   // a constraint the domain accepts in add_constraint: (+-a) x_i (+-a) x_j + b rel 0
   RawCon shaped_con() {
-    RawCon c; c.a.assign(n, 0); c.b = coin(65) ? rc() : rc_big(); int k = rnd(0, 6); c.rel = k < 5 ? 1 : 0;
+    RawCon c; c.a.assign(n, 0); c.b = coin(45) ? rc() : rc_big(); int k = rnd(0, 6); c.rel = k < 5 ? 1 : 0;
     long a = coin(60) ? (coin() ? 1 : -1) : (coin(80) ? rc_small_nz() : rc_nz());
     int i = rnd(0, n - 1); c.a[i] = a;
     if (n > 1 && coin(65)) { int j = rnd(0, n - 2); if (j >= i) ++j; long neg = (a == -G().lim - 1) ? G().lim : -a; c.a[j] = (OCT && coin()) ? a : neg; }
@@ -87,13 +87,13 @@ struct Shape_Script : public Script {
     case DIFF: ctx.begin("difference_assign", ra + ".difference_assign(" + rb + ")"); A.difference_assign(B); out.push_back(obs_cons_only(A)); break;
     case TIME_ELAPSE: ctx.begin("time_elapse_assign", ra + ".time_elapse_assign(" + rb + ")"); A.time_elapse_assign(B); out.push_back(obs_cons_only(A)); break;
     case AFF_IMG: case AFF_PRE: {
-      int k = rnd(0, n - 1); std::vector<long> a = raw_vec(n, 40); long b = coin(70) ? rc() : rc_big(); long d = coin(70) ? rc_small_nz() : rc_nz();
+      int k = rnd(0, n - 1); std::vector<long> a = raw_vec(n, 40); long b = coin(50) ? rc() : rc_big(); long d = coin(70) ? rc_small_nz() : rc_nz();
       const char* nm = op == AFF_IMG ? "affine_image" : "affine_preimage";
       ctx.begin(nm, ra + "." + nm + "(" + (char) ('A' + k) + ", " + show(a, b) + ", " + std::to_string(d) + ")");
       if (op == AFF_IMG) A.affine_image(Variable(k), le(a, b, n), Coefficient(d)); else A.affine_preimage(Variable(k), le(a, b, n), Coefficient(d));
       out.push_back(obs_cons_only(A)); break; }
     case GEN_IMG: case GEN_PRE: {
-      int k = rnd(0, n - 1); int r = 1 + rnd(0, 2); std::vector<long> a = raw_vec(n, 40); long b = rc(); long d = coin(70) ? rc_small_nz() : rc_nz();
+      int k = rnd(0, n - 1); int r = 1 + rnd(0, 2); std::vector<long> a = raw_vec(n, 40); long b = coin(60) ? rc() : rc_big(); long d = coin(70) ? rc_small_nz() : rc_nz();
       const char* nm = op == GEN_IMG ? "generalized_affine_image" : "generalized_affine_preimage";
       ctx.begin(nm, ra + "." + nm + "(" + (char) ('A' + k) + " " + RELSS[r] + " (" + show(a, b) + ")/" + std::to_string(d) + ")");
       if (op == GEN_IMG) A.generalized_affine_image(Variable(k), RELS[r], le(a, b, n), Coefficient(d)); else A.generalized_affine_preimage(Variable(k), RELS[r], le(a, b, n), Coefficient(d));
@@ -105,7 +105,7 @@ struct Shape_Script : public Script {
       if (op == GEN_IMG_LR) A.generalized_affine_image(le(l, lb, n), RELS[r], le(a, b, n)); else A.generalized_affine_preimage(le(l, lb, n), RELS[r], le(a, b, n));
       out.push_back(obs_cons_only(A)); break; }
     case BND_IMG: case BND_PRE: {
-      int k = rnd(0, n - 1); std::vector<long> l = raw_vec(n, 45), u = raw_vec(n, 45); long lb = rc(), ub = rc(); long d = coin(70) ? rc_small_nz() : rc_nz();
+      int k = rnd(0, n - 1); std::vector<long> l = raw_vec(n, 45), u = raw_vec(n, 45); long lb = coin(60) ? rc() : rc_big(), ub = coin(60) ? rc() : rc_big(); long d = coin(70) ? rc_small_nz() : rc_nz();
       const char* nm = op == BND_IMG ? "bounded_affine_image" : "bounded_affine_preimage";
       ctx.begin(nm, ra + "." + nm + "(" + (char) ('A' + k) + ", " + show(l, lb) + ", " + show(u, ub) + ", " + std::to_string(d) + ")");
       if (op == BND_IMG) A.bounded_affine_image(Variable(k), le(l, lb, n), le(u, ub, n), Coefficient(d)); else A.bounded_affine_preimage(Variable(k), le(l, lb, n), le(u, ub, n), Coefficient(d));
@@ -119,9 +119,10 @@ struct Shape_Script : public Script {
       out.push_back(obs_cons_only(A)); if (use_tp) out.push_back(val("tokens", ZZ(tokens))); break; }
     case LIMITED: {
       int k = rnd(0, 1); std::vector<RawCon> v = any_cs(1, 3, t);
-      // A constraint without variables (e.g. `-3 == 0`) in cs makes BD_Shape::get_limiting_shape index dbm[space_dim + 1]
-      // (heap-buffer-overflow in every configuration, reported separately): keep such rows out unless asked for.
-      if (!hx::opt().geti("trivlim", 0)) { t.clear(); for (size_t i = 0; i < v.size(); ++i) { bool z = true; for (int d = 0; d < n; ++d) if (v[i].a[d]) z = false; if (z) v[i].a[rnd(0, n - 1)] = 1; t += (i ? ", " : "") + show(v[i]); } }
+      // History: a constraint without variables (e.g. `-3 == 0`) in cs made BD_Shape::get_limiting_shape index dbm[space_dim + 1]
+      // (heap-buffer-overflow in every configuration; repaired in /repo by "fix: limited extrapolations on BD shapes and octagons
+      // indexed the matrix with a variable-free limiting constraint").  --kv trivlim=0 keeps such rows out again.
+      if (!hx::opt().geti("trivlim", 1)) { t.clear(); for (size_t i = 0; i < v.size(); ++i) { bool z = true; for (int d = 0; d < n; ++d) if (v[i].a[d]) z = false; if (z) v[i].a[rnd(0, n - 1)] = 1; t += (i ? ", " : "") + show(v[i]); } }
       static const char* const nm[2] = { "limited_CC76_extrapolation_assign", "limited_BHMZ05_extrapolation_assign" };
       ctx.begin(nm[k], ra + ".upper_bound_assign(" + rb + ");" + ra + "." + nm[k] + "(" + rb + ", {" + t + "})");
       A.upper_bound_assign(B); Constraint_System cs = cons(v, n);
@@ -131,9 +132,9 @@ struct Shape_Script : public Script {
       ctx.begin("CC76_narrowing_assign", "y=copy(" + rb + ");y.upper_bound_assign(" + ra + ");" + ra + ".CC76_narrowing_assign(y)");
       SH y(B); y.upper_bound_assign(A); A.CC76_narrowing_assign(y); out.push_back(obs_cons_only(A)); break; }
     case SIMPLIFY: {
-      // Octagonal_Shape<integer T>::simplify_using_context_assign reaches its final PPL_UNREACHABLE in every configuration
-      // (reported separately; with the static library that is a call through a null weak symbol): octagons skip it unless asked.
-      if (OCT && !hx::opt().geti("octsimplify", 0)) { ctx.begin("contains", ra + ".contains(" + rb + ")"); out.push_back(val("contains", A.contains(B))); break; }
+      // History: Octagonal_Shape<integer T>::simplify_using_context_assign reached its final PPL_UNREACHABLE in every configuration
+      // (x = {B >= 2}, y = {A <= -1, 2B >= 3}); repaired in /repo.  --kv octsimplify=0 skips the operation for octagons again.
+      if (OCT && !hx::opt().geti("octsimplify", 1)) { ctx.begin("contains", ra + ".contains(" + rb + ")"); out.push_back(val("contains", A.contains(B))); break; }
       ctx.begin("simplify_using_context_assign", ra + ".simplify_using_context_assign(" + rb + ")"); bool r = A.simplify_using_context_assign(B); out.push_back(val("nonempty_meet", r)); out.push_back(obs_cons_only(A)); break; }
     case UNCONSTRAIN: { Variables_Set vs = rand_vars(t); ctx.begin("unconstrain", ra + ".unconstrain{" + t + "}"); if (vs.size() == 1 && coin()) A.unconstrain(Variable(*vs.begin())); else A.unconstrain(vs); out.push_back(obs_cons_only(A)); break; }
     case DIMS: {
